@@ -66,7 +66,10 @@ def _registry():
     R.models['LockM.release'] = noop
     R.lib_models['time.time'] = time_
     R.lib_models['datetime.timedelta'] = noop
-    R.models['FileM.write'] = noop
+    @model
+    def f_write(ip, args, kw):
+        ip.ghost['writes'] = ip.ghost.get('writes', 0) + 1
+    R.models['FileM.write'] = f_write
     R.models['FileM.flush'] = noop
     return R
 
@@ -159,7 +162,25 @@ def _actions(method_node):
     return flat
 
 
-def _run_action(repo, R, method, stmt_idx, pre, post_name, post, timeout_ms, with_step):
+def timer_callbacks(cls):
+    """names of the methods of the class that are handed to a Timer as its callback: Timer(<interval>, self.<name>)"""
+    names = []
+    for member in cls.own_members().values():
+        node = getattr(member, 'node', None)
+        if node is None:
+            continue
+        for c in ast.walk(node):
+            if isinstance(c, ast.Call) and (getattr(c.func, 'id', None) == 'Timer' or getattr(c.func, 'attr', None) == 'Timer'):
+                cb = c.args[1] if len(c.args) > 1 else next((k.value for k in c.keywords if k.arg == 'function'), None)
+                if isinstance(cb, ast.Attribute) and isinstance(cb.value, ast.Name) and cb.value.id == 'self':
+                    if cb.attr not in names:
+                        names.append(cb.attr)
+                elif cb is not None:
+                    names.append(None)          # a callback this analysis cannot name
+    return names
+
+
+def _run_action(repo, R, method, stmt_idx, pre, post_name, post, timeout_ms, with_step, no_write=False):
     """execute ONE atomic action of `method` from an arbitrary state satisfying `pre`."""
     results = []
     work = [[]]
@@ -195,12 +216,19 @@ def _run_action(repo, R, method, stmt_idx, pre, post_name, post, timeout_ms, wit
                     st.obj.fields[st.flag] = st2.exited
                 ip.add_pc(pre(st))
             before_timer = st.obj.fields['_timer']
+            ip.ghost['writes'] = 0
             try:
                 ip.exec_stmt(stmts[stmt_idx], frame)
             except ReturnSignal:
                 pass
             except PyRaise:
                 pass
+            if no_write:
+                ip.prove(post_name, z3.BoolVal(ip.ghost.get('writes', 0) == 0), {'writes to the stream by this action': ip.ghost.get('writes', 0)})
+                work.extend(ip.new_forks)
+                for ob in ip.obligations:
+                    results.append(discharge(ob, timeout_ms, None, {'inputs': {'exited': st.exited}}))
+                continue
             # ghost update: a replaced timer that is still armed becomes a lost one
             now = st.obj.fields['_timer']
             cur = now.fields['armed'] if isinstance(now, Obj) else z3.BoolVal(False)
@@ -257,6 +285,19 @@ class RgTarget:
                             repo, R, m, i,
                             lambda st: z3.And(z3.Not(st.other_armed), st.exited, z3.Not(st.cur_armed)),
                             'prog/no-timer-after-exit/' + tag, Q, timeout_ms, with_step)
+            # nothing is written by the timer thread once exit() has closed the object: every atomic action of every method
+            # that is handed to a Timer as its callback, started in a state where exit() has completed, writes nothing
+            cbs = timer_callbacks(cls)
+            for cb in cbs:
+                if cb is None or cls.find(cb) is None:
+                    res['undecided'].append('a Timer callback of ProgressBar is not a method of the object')
+                    continue
+                m = cls.find(cb)
+                for i in range(len(_actions(m.node))):
+                    res['obligations'] += _run_action(repo, R, m, i, lambda st: z3.And(z3.Not(st.other_armed), st.exited, z3.Not(st.cur_armed)),
+                                                      'prog/no-write-after-exit/%s#%d[callback]' % (cb, i), None, timeout_ms, False, no_write=True)
+            if not cbs:
+                res['undecided'].append('no Timer callback found in ProgressBar')
             # exit(): its cancelling action establishes Q (from GI); later actions preserve it
             m = cls.find('exit')
             res['functions_extra'].append(describe(m))
